@@ -692,9 +692,11 @@ class TransferStream(CmdStream):
             yield self.gen(rng)
 
 
+import c19s15     # noqa: E402  (needs the classes above)
+
 PROPERTY = Property(
     pid="C19",
-    streams=[IdentStream(), CmdStream(), AllStream(), RootCwdStream(), TransferStream()],
+    streams=[IdentStream(), CmdStream(), AllStream(), RootCwdStream(), TransferStream()] + c19s15.STREAMS,
     assumptions=[
         "paths are resolved lexically in the model: a LICENSES/ (or --output parent, or --source) reached through a symbolic "
         "link to a directory is not generated; links met at the destination itself (dangling, to a file) are",
